@@ -373,6 +373,9 @@ def sibling_holdings_filter(F, rep):
 
 def run(ctx, rep):
     F = ctx.F
+    # the same figures everywhere presuppose the same calculation everywhere: every front-end hands over all parsed lines
+    import rules.c02 as _c02
+    _c02.frontends_hand_over_everything(F, rep, "R12")
     sibling_holdings_filter(F, rep)
     exact_quantities(F, rep)
     same_named_figures(F, rep)
